@@ -17,7 +17,7 @@ import json
 import math
 
 from . import common
-from .c15 import (TOL, attrs_of, bits, build, gen_atom, gen_structure, matmul, my_stdbase, snapshot, unbits, vecmat)
+from .c15 import (GEOM_ASSUMPTION, TOL, attrs_of, bits, build, gen_atom, gen_structure, geom_tie, matmul, my_stdbase, snapshot, unbits, vecmat)
 
 SURF = 1e-9
 
@@ -76,6 +76,41 @@ def parse_model(out):
     return {"mno": k, "centre": nc, "N": N, "nkept": nk, "kept": kept, "d": ds}
 
 
+class CutTimeout(Exception):
+    """the cut-out did not return within CALL_LIMIT seconds (every generated input needs a block of at most 6^3 cells)"""
+
+
+class CutSkipped(Exception):
+    """not evaluated: several earlier inputs did not return in time"""
+
+
+CALL_LIMIT = 60.0
+_timeouts = [0]
+
+
+def _limited(fn):
+    """run `fn()` with a wall-clock limit (main thread only): a cut-out that builds a block of the wrong size can run for hours"""
+    import signal
+    import threading
+
+    if threading.current_thread() is not threading.main_thread() or not hasattr(signal, "setitimer"):
+        return fn()
+    if _timeouts[0] >= 3:
+        raise CutSkipped("not evaluated: %d earlier inputs did not return within %.0f s" % (_timeouts[0], CALL_LIMIT))
+
+    def on_alarm(signum, frame):
+        _timeouts[0] += 1
+        raise CutTimeout("no result after %.0f s" % CALL_LIMIT)
+
+    old = signal.signal(signal.SIGALRM, on_alarm)
+    signal.setitimer(signal.ITIMER_REAL, CALL_LIMIT)
+    try:
+        return fn()
+    finally:
+        signal.setitimer(signal.ITIMER_REAL, 0)
+        signal.signal(signal.SIGALRM, old)
+
+
 def call(spec, radii, sphere=False, S=None):
     from diffpy.structure.expansion.makeellipsoid import makeEllipsoid, makeSphere
 
@@ -83,7 +118,7 @@ def call(spec, radii, sphere=False, S=None):
         S = build(spec)
     before = snapshot(S)
     try:
-        R = makeSphere(S, radii[0]) if sphere else makeEllipsoid(S, *radii)
+        R = _limited(lambda: makeSphere(S, radii[0]) if sphere else makeEllipsoid(S, *radii))
         err = None
     except Exception as e:  # noqa: BLE001
         R, err = None, e
@@ -105,6 +140,8 @@ def oracle(spec, radii, sphere=False, S=None):
     info.update(mno=k, amb=amb)
     if err is not None:
         info["error"] = type(err).__name__
+        if isinstance(err, CutSkipped):
+            return fails, info
         if k >= 1 and len(spec["atoms"]) > 0 and amb > 1e-9:
             fails.append(("raises:%s" % type(err).__name__, "raised %r (block multiplier %d, %d atoms)" % (err, k, len(spec["atoms"]))))
         return fails, info
@@ -453,18 +490,24 @@ def tie_one(spec, radii, sphere=False):
 def run(ck):
     common.use_repo()
     import numpy
-    from diffpy.structure.expansion.shapeutils import findCenter
+    try:
+        from diffpy.structure.expansion.shapeutils import findCenter
+    except Exception as e:  # noqa: BLE001
+        ck.fail("import:%s" % type(e).__name__, "the package under test cannot be imported: %r" % (e,), {"kind": "import", "observed": repr(e)})
+        return
 
     ok, info = ck.lean_obligations("DS.Props.C18")
     tie_ok, tie_info = ck.source_tie("DS.Props.SrcLattice")  # the block is a supercell: same Lattice model as C15
     tie2_ok, tie2_info = ck.source_tie("DS.Props.SrcExpand")   # supercell: index list, image coordinates, new cell, guards
     # findCenter / makeEllipsoid / makeSphere themselves: the model IS the transliteration of the current source
     tie3_ok, tie3_info = ck.source_tie("DS.Props.SrcShape", groups=("shape",))
+    # `.dist .cartesian .fractional` of the lattice record those functions use = the transliterated lattice.py
+    geom_ok, geom_info = geom_tie(ck)
     rng = ck.rng
     quick = ck.tier == "quick"
     cap = 4 if quick else 6
     # a broken tie of the cut-out functions themselves is not a verdict: search harder for a concrete failing input
-    widen = 1 if tie3_ok else 4
+    widen = 1 if (tie3_ok and geom_ok) else 4
     ncases = (70 if quick else 1200) * widen
     cases = [gen_case(rng, cap) + (False,) for _ in range(ncases)]
     # spheres
@@ -599,7 +642,7 @@ def run(ck):
           "title": "dup", "atoms": [{"element": "Ni", "xyz": [0.0, 0.0, 0.0], "label": "a", "occupancy": 1.0, "vid": 0},
                                     {"element": "Cu", "xyz": [1.0, 0.0, 0.0], "label": "b", "occupancy": 1.0, "vid": 1}]}
     try:
-        Rd = makeEllipsoid(build(sp), 1.5)
+        Rd = _limited(lambda: makeEllipsoid(build(sp), 1.5))
         Cd = [tuple(round(float(x), 9) for x in c) for c in Rd.xyz_cartn]
     except Exception as e:  # noqa: BLE001  informational only
         Cd = [repr(e)]
@@ -625,11 +668,13 @@ def run(ck):
         "source tie DS.Props.SrcShape: findCenter / makeEllipsoid / makeSphere are transliterated by translate/src_shape.py (its reading of "
         "Python is trusted: int indices with negatives from the end, `** 0.5` as sqrt, `sum` from 0, for-loops as folds, IndexError the only "
         "exception of the subset; math.ceil of a non-finite float raising is not modelled) and proved equal to the model for all inputs",
+        GEOM_ASSUMPTION,
     ]
     ck.coverage["trusted_base"] += ["harness/c18.py oracle (plain numpy enumeration of lattice sites)", "compiled Lean model driver (DS.Expand.expandHandle)"]
     ck.tie_verdict(tie_ok, tie_info, "lattice.py")
     ck.tie_verdict(tie2_ok, tie2_info, "supercell_mod.py")
     ck.tie_verdict(tie3_ok, tie3_info, "shapeutils.py findCenter / makeellipsoid.py makeEllipsoid, makeSphere")
+    ck.tie_verdict(geom_ok, geom_info, "lattice.py cartesian / fractional / norm / dist / setLatPar vs the lattice record of the cut-out model")
     if not ok and not ck.violations:
         ck.fail("lean-build", "Lean obligations of C18 no longer check: %r" % (info["failed_modules"],),
                 {"kind": "proof-obligation", "theorem": info["failed_modules"], "errors": info["errors"]}, no_failing_input=True)
@@ -673,7 +718,7 @@ def sphere_equals_ellipsoid(spec, r):
 
     def run(f, *a):
         try:
-            return ("ok", f(build(spec), *a))
+            return ("ok", _limited(lambda: f(build(spec), *a)))
         except Exception as e:  # noqa: BLE001
             return ("exc", type(e).__name__)
 
@@ -691,6 +736,16 @@ def replay(path):
     common.use_repo()
     r = json.load(open(path))
     inp = r.get("input", {})
+    if r.get("kind") == "import":
+        try:
+            import importlib
+
+            importlib.import_module("diffpy.structure.expansion.shapeutils")
+        except Exception as e:  # noqa: BLE001
+            print("FAILS import: %r" % (e,))
+            return 1
+        print("the package imports")
+        return 0
     if "structure" not in inp or "radii" not in inp:
         print("replay names no concrete input:", r.get("theorem"))
         return 1
